@@ -375,6 +375,8 @@ def run_twins(ctx, C, seed):
             srcs.append(m["src"])
             fam_of.append(fi)
     kmax = max(len(f["members"]) for f in fams)
+    if not thorough:
+        kmax = min(kmax, 5)       # quick tier: the first five rotations (families of 6-7 members do not get every member first)
     sessions = []
     for r in range(kmax):
         order = []
